@@ -25,11 +25,11 @@ package main
 // guards of the writing blocks say about the written values.
 
 import (
-	"os"
 	"fmt"
 	"go/constant"
 	"go/token"
 	"go/types"
+	"os"
 	"strings"
 
 	"golang.org/x/tools/go/ssa"
